@@ -170,18 +170,21 @@ where runHttp' (id method ct queryS formS jsonS schemaS destS orderS extS : Sexp
         | .atom "err" => pure (.error "invalid_json", "json")
         | .list [.atom "ok", v] => do
           let v ← val? v
-          -- zjson hands an empty object over as a nil provider: a top-level pointer schema sees "absent"
-          -- (pinned by the repository's TestTopLevelOptionalStruct), a struct schema an empty record
-          let v := match s, v with
-            | .ptr .., .obj [] => Val.nil
-            | _, v => v
+          -- C15: an empty object decodes to a record in which every field is absent, whatever the root schema
           pure (.ok v, "json")
         | _ => none
     let r : DVal × St := match decoded with
       | .error code => (d, { sink := [{ code := code, path := "", dtype := "struct", params := [], message := env.fmt code "struct" [] }], log := [] })
       | .ok v => Spec.run env .parse s (some tag) v d
-    pure (node "res" [id, .atom (match src with | .query => "query" | .form => "form" | .json => "json"),
-      issueMapS (toIssueMap r.2.sink), node "dest" [dvalS r.1], node "log" (r.2.log.map eventS)])
+    -- known finding D40: what the same request gives if the empty JSON object is taken for NO record at a
+    -- top-level pointer schema (reported next to the result so that the harness can tell D40 from anything else)
+    let alt : List Sexp := match s, decoded with
+      | .ptr .., .ok (.obj []) =>
+        let r' := Spec.run env .parse s (some tag) Val.nil d
+        [node "alt" [issueMapS (toIssueMap r'.2.sink), node "dest" [dvalS r'.1], node "log" (r'.2.log.map eventS)]]
+      | _, _ => []
+    pure (node "res" ([id, .atom (match src with | .query => "query" | .form => "form" | .json => "json"),
+      issueMapS (toIssueMap r.2.sink), node "dest" [dvalS r.1], node "log" (r.2.log.map eventS)] ++ alt))
 
 def fieldMap? : Sexp → Option Helpers.FieldMap
   | .list kvs => kvs.mapM fun kv => match kv with
